@@ -126,6 +126,7 @@ def run(prog, chk):
     chk.rule(limit_errors_keep_their_variant, prog, chk)
     chk.rule(limits_wiring, prog, chk)
     chk.rule(scope_var_limit, prog, chk)
+    chk.rule(var_limit_follows_every_evaluation, prog, chk)
     chk.rule(depth_test_unconditional, prog, chk)
     from props import C06, C07
     chk.rule(C06.config_single_writer, prog, chk)  # the limits in force are the configuration's: nothing but set_config replaces it (a saved copy restored later undoes a <config>)
@@ -905,6 +906,36 @@ def limits_wiring(prog, chk):
                     f"CLI copies args.{f} into TransformConfig::{f}",
                     f"CLI initialises TransformConfig::{f} from `{src}`",
                 )
+
+
+def var_limit_follows_every_evaluation(prog, chk):
+    """<var>: every value that comes out of an evaluation is compared with var_limit before the next attribute is looked
+    at (or the result handed back).  A way round the comparison - "nothing changes, skip it" - lets a value that is
+    over the limit in force stay visible under that name"""
+    ve = prog.maybe_body("<svgdx::transform::VarElement as svgdx::transform::EventGen>::generate_events")
+    if ve is None:
+        chk.anchor_missing("A7.var-limit-after-eval", "VarElement::generate_events not found")
+        return
+    n = 0
+    for bd in [ve] + list(prog.closures_of(ve)):
+        evals = bd.call_sites(lambda c: c.path.endswith("expression::eval_attr"))
+        tests = {x for (x, i, node) in R.place_reads(bd, (".var_limit",))}
+        if not evals:
+            continue
+        if not tests:
+            chk.undecided("A7.var-limit-after-eval", f"{bd.short}", bd.where(), f"{bd.short} evaluates attribute values but does not read var_limit itself: where the evaluated values are tested is not read here")
+            continue
+        for (eb, et, ec) in evals:
+            n += 1
+            # the Ok continuation of the evaluation
+            starts = [et["t"]] if et.get("t") is not None else []
+            brk = R.try_break_edges(bd, et["dest"][0]) if et.get("dest") and not et["dest"][1] else []
+            avoid = set(tests) | {tgt for (_a, tgt) in (brk or [])}
+            lp = R.loop_containing(bd, eb)
+            goals = [lp[0]] if lp is not None else [x for x in bd.reachable if bd.term(x)["k"] == "ret"]
+            skip = R.feasible_reach(bd, starts, goals, avoid=avoid)
+            chk.ob(not skip, "A7.var-limit-after-eval", f"{bd.short}:eval_attr", bd.where(eb, et.get("line")), "the evaluated value is compared with var_limit on every way to the next attribute", f"after the evaluation at {bd.where(eb, et.get('line'))} the {'next pass of the loop' if lp is not None else 'result'} can be reached without the comparison with var_limit: a value longer than the limit in force is accepted on that way (e.g. when it equals what the variable already holds)")
+    chk.floor("A7.var-limit-after-eval", n, 1, "evaluation of a <var> attribute")
 
 
 def scope_var_limit(prog, chk):
